@@ -143,6 +143,8 @@ def rule_from_error(ctx, rule_id="C18.2-error-to-exception-never-lost"):
             env = {f"{msg}.enc_algo": None, f"{msg}.error": "com.err", f"{msg}.args": args, f"{msg}.kwargs": kw, "self": Sym("session"),
                    "self._uri_to_ecls": ({"com.err": ecls} if registered else {"com.other": ecls}), "self._payload_codec": None,
                    f"{msg}.callee": None, f"{msg}.callee_authid": None, f"{msg}.callee_authrole": None, f"{msg}.forward_for": None}
+            # the fallback class also as a VALUE (handed to a helper that calls it): the same answer as the call by name
+            env["exception.ApplicationError"] = Sym("class ApplicationError", methods={"__call__": (lambda *a_, **k_: default("exception.ApplicationError", list(a_), k_))})
             t = Tiny(env, default_call=default)
             r = t.run(body)
             cell = (f"error URI {'registered' if registered else 'not registered'}, args {args}, kwargs {kw}, constructor "
